@@ -1,6 +1,9 @@
 #include "prelude.hpp"
 using namespace altintegration;
 #define REACH __CPROVER_assert(0, "REACH: harness end is reachable (expected to fail)")
+#ifndef PERIOD
+#define PERIOD 6
+#endif
 #ifndef NCH
 #define NCH 7
 #endif
@@ -13,7 +16,7 @@ void* nondet_ptr();
 int32_t w_vbk_weighted_time(const uint32_t* ts, const uint32_t* bits, uint32_t n, uint32_t period, uint32_t blocktime, uint32_t* out) {
   VbkIndex c[NCH];
   for (uint32_t i = 0; i < NCH; i++) { c[i].ts = ts[i]; c[i].bits = bits[i]; c[i].pprev = (i + 1 < n) ? &c[i + 1] : 0; }
-  VbkChainParams p; p.period = period; p.blocktime = blocktime;
+  VbkChainParams p; p.period = PERIOD; p.blocktime = blocktime;   // (concrete period: the contract requires period == PERIOD)
   g_sum_calls = 0; g_sum_bits = 0;
   uint32_t it = 0;
   int32_t t = vbk_weighted_time(c[0], p, &it);
